@@ -182,7 +182,7 @@ func c17PayHandedOut(w *depWorld, ctx sdk.Context, k sim.BtcKey, evm []byte, ver
 var c17Pads = []string{" ", "\t", "\n", "\r", "\x00"}
 
 func runC17(r *mc.Run) {
-	r.Rule = "deposit side: 11 relayer keys (6 ECDSA of both parities, 5 x-only) x 6 EVM addresses x 4 networks x versions 0/1 x 3 magic prefixes: address and data script from the real Query/DepositAddress handler and from the builders -> script via btcd -> the real verifier must accept (and, on regtest, a transaction paying it must be credited through the real MsgNewDeposits path) for the generating (key, address) and reject for every other pair of the alphabet (full cross product), and must reject every single-byte substitution (255 values x every position), truncation and extension of the handed-out scripts for the generating pair; system address: for every key the p2wpkh / p2tr script of the key is accepted by VerifySystemAddressScript and every single-byte substitution, truncation, extension, other key's script is refused; withdrawal side: hand-encoded p2pkh/p2sh/p2wpkh/p2wsh/p2tr addresses of 4 networks, pay-to-pubkey strings, every single-character substitution from a 4-symbol menu, blank / tab / newline / CR / NUL padding at either end, case change, extension, truncation, decoded for every network by the real DecodeBtcAddress and end-to-end through ProcessBridgeRequest"
+	r.Rule = "deposit side: 11 relayer keys (6 ECDSA of both parities, 5 x-only) x 6 EVM addresses x 4 networks x versions 0/1 x 3 magic prefixes: address and data script from the real Query/DepositAddress handler and from the builders -> script via btcd -> the real verifier must accept (and, on regtest, a transaction paying it must be credited through the real MsgNewDeposits path) for the generating (key, address) and reject for every other pair of the alphabet (full cross product), and must reject every single-byte substitution (255 values x every position), truncation and extension of the handed-out scripts for the generating pair; system address: for every key the p2wpkh / p2tr script of the key is accepted by VerifySystemAddressScript and every single-byte substitution, truncation, extension, other key's script is refused; withdrawal side: hand-encoded p2pkh/p2sh/p2wpkh/p2wsh/p2tr addresses of 4 networks, pay-to-pubkey strings, every single-character substitution from a 4-symbol menu, blank / tab / newline / CR / NUL padding at either end, case change, extension, truncation, decoded for every network by the real DecodeBtcAddress and end-to-end through ProcessBridgeRequest (singly, and three times in one request list)"
 	r.Assumptions = []string{"btcd address/script encoding trusted as reference decoder for mutated strings", "hash functions trusted"}
 	keys, evms := c17Keys(6, 5), c17Evms(6)
 	if r.Thorough() {
@@ -561,6 +561,39 @@ func runC17(r *mc.Run) {
 		} else {
 			r.Outcome("withdrawal-refunded")
 		}
+	}
+	// the same address several times in one request list: every single request is decided on its own
+	// address (a refusal of the first occurrence must not let the later ones through, nor the reverse)
+	for i, a := range addrs {
+		bctx, _ := w.root.CacheContext()
+		base := uint64(5000 + 10*i)
+		var reqs []*goattypes.WithdrawalRequest
+		for k := uint64(0); k < 3; k++ {
+			reqs = append(reqs, &goattypes.WithdrawalRequest{Id: base + k, Amount: 100000, TxPrice: 10, Address: a.addr})
+		}
+		err := kp.ProcessBridgeRequest(bctx, goattypes.BridgeRequests{Withdraws: reqs})
+		r.Transitions.Add(1)
+		r.Validated.Add(1)
+		if err != nil {
+			r.Violate(mc.Violation{Class: "withdraw-request-fails", Msg: err.Error(), Detail: c17Case{Part: "withdrawal", Address: a.addr}}, nil)
+			continue
+		}
+		want := netAccepts(reg, a)
+		q, _ := kp.EthTxQueue.Get(bctx)
+		for k := uint64(0); k < 3; k++ {
+			wd, err := kp.Withdrawals.Get(bctx, base+k)
+			must(err)
+			refunded := false
+			for _, rid := range q.RejectedWithdrawals {
+				if rid == base+k {
+					refunded = true
+				}
+			}
+			if pending := wd.Status == bitcointypes.WITHDRAWAL_STATUS_PENDING; pending != want || refunded == want {
+				r.Violate(mc.Violation{Class: "repeated-address-decided-differently:" + a.kind, Msg: fmt.Sprintf("occurrence %d of %s (%s@%s) in one request list: status %s refunded=%v, decodable for regtest=%v", k+1, a.addr, a.kind, a.net, wd.Status, refunded, want), Detail: c17Case{Part: "withdrawal", Address: a.addr}}, nil)
+			}
+		}
+		r.Outcome("repeated-address-batch")
 	}
 	r.Sample(map[string]any{"deposit_case": c17Case{Part: "deposit", Key: pubHex(keys[0].Public()), Evm: hex.EncodeToString(evms[2]), Network: "regtest", Version: 1, Magic: "47545430"}})
 	r.Sample(map[string]any{"withdrawal_addresses": []string{addrs[0].addr, addrs[7].addr, addrs[19].addr, addrs[20].addr}})
